@@ -16,11 +16,10 @@ func (p *Prog) ifaceMethodContract(t types.Type, m string) *FuncContract {
 		return nil
 	}
 	ic := p.CS.Ifaces[n.Obj().Pkg().Path()+"::"+n.Obj().Name()]
-	if ic == nil {
-		return nil
-	}
-	if fc := ic.Methods[m]; fc != nil {
-		return fc
+	if ic != nil {
+		if fc := ic.Methods[m]; fc != nil {
+			return fc
+		}
 	}
 	// embedded interfaces
 	if it, ok := n.Underlying().(*types.Interface); ok {
@@ -71,7 +70,7 @@ func (p *Prog) modArrays(fc *FuncContract, m string) []string {
 	case "SEQ":
 		return []string{"SEQ_Int", "SEQ_String", "SEQ_Bool", "LEN"}
 	case "MAP":
-		return []string{"MAPV", "MAPD"}
+		return []string{"MAPD_Int", "MAPD_String", "MAPV_Int_Int", "MAPV_Int_Bool", "MAPV_Int_String", "MAPV_String_Int", "MAPV_String_Bool", "MAPV_String_String"}
 	}
 	dot := strings.LastIndex(m, ".")
 	if dot < 0 {
